@@ -25,11 +25,27 @@ HARNESSES = [
     dict(name="array_ops", file="array_ops.c", label="proved", unwind=66, timeout=600,
          cases=[dict(id="init", defines={"OP": 0}, tier="quick"),
                 dict(id="init_copy", defines={"OP": 1}, tier="quick"),
-                dict(id="append", defines={"OP": 2}, tier="quick"),
+                dict(id="append_sz4", defines={"OP": 2, "ESIZE": 4}, tier="quick",
+                     label="bounded(element size in {4,8,16})"),
+                dict(id="append_sz8", defines={"OP": 2, "ESIZE": 8}, tier="quick",
+                     label="bounded(element size in {4,8,16})"),
+                dict(id="append_sz16", defines={"OP": 2, "ESIZE": 16}, tier="quick",
+                     label="bounded(element size in {4,8,16})"),
                 dict(id="set_capacity", defines={"OP": 3}, tier="quick")]),
+    dict(name="write_table", file="write_table.c", label="proved",
+         loops=["sqfs_write_table"], loop_tables=["C14"],
+         fp=dict(_FP_FILE, destroy="mw_destroy"),
+         timeout=600, cases=[dict(id="all", tier="quick")]),
+    dict(name="tables", file="tables.c", label="bounded(entries <= 3)",
+         fp=dict(_FP_FILE, destroy="tbl_destroy", copy="tbl_copy"), unwind=50,
+         timeout=600, cases=[dict(id="n3", tier="quick")]),
     dict(name="meta_flush", file="meta_flush.c", label="proved",
          fp=dict(_FP_FILE, do_block="c14_do_block", destroy="c14_obj_destroy"),
          timeout=600, cases=[dict(id="all", tier="quick")]),
+    dict(name="bp_frontend", file="bp_frontend.c", label="proved", fp=_FP_BP,
+         loops=["get_new_block"], timeout=600, defines={"BP_BS": 16},
+         cases=[dict(id="end_file", defines={"FE_ENQUEUE": 0}, tier="quick"),
+                dict(id="enqueue", defines={"FE_ENQUEUE": 1}, tier="quick")]),
     dict(name="bp_fragment", file="bp_fragment.c",
          label="bounded(block index <= 11, payload <= 16)", fp=_FP_BP, unwind=6, timeout=900,
          cases=[dict(id="avail0", defines={"INODE_AVAIL": 0}, tier="quick"),
